@@ -284,7 +284,7 @@ pub fn options(_tier: Tier, w: &Arc<World>) -> Scn {
         specs.push(spec);
         bystander = Some(bp);
     }
-    w.add_monitor(Box::new(XferMon::new("C09", Rules { c09: true, ..Default::default() }, specs, dupn)));
+    w.add_monitor(Box::new(XferMon::new("C09", Rules { c09: true, c02: true, ..Default::default() }, specs, dupn)));
     boot_server(w, &srv).expect("server config");
     w.start_peer_at(peer, 10 * MS);
     if let Some((bp, at)) = bystander {
